@@ -615,8 +615,15 @@ func Drive(propID, tier string) int {
 
 	// evidence
 	setCounts := map[string]int{}
+	setValues := map[string][]string{}
 	for k, s := range sets {
 		setCounts[k] = len(s)
+		if len(s) <= 64 {
+			for v := range s {
+				setValues[k] = append(setValues[k], v)
+			}
+			sort.Strings(setValues[k])
+		}
 	}
 	cov := map[string]any{
 		"evaluations":         evals,
@@ -625,6 +632,7 @@ func Drive(propID, tier string) int {
 		"samples":             samples,
 		"observed":            counters,
 		"distinct_observed":   setCounts,
+		"distinct_values":     setValues,
 		"inconclusive":        len(inconcl),
 		"inconclusive_cases":  capList(inconcl, 20),
 		"known_findings_hit":  khits,
